@@ -3,6 +3,8 @@ from __future__ import annotations
 
 import json
 
+from translator import c05 as tr
+
 from .. import core
 from ..core import Broken, Ctx, Violation
 
@@ -425,9 +427,10 @@ def emit_case(c, o) -> str:
 def emit_file(pairs) -> str:
     body = ";\n  ".join(emit_case(c, o) for c, o in pairs)
     return ("From Coq Require Import ZArith List String.\nFrom PyxelV Require Import Model.ParamSpace.\n"
+            "From PyxelGen Require Import Gen_C05.\n"
             "Import ListNotations.\nLocal Open Scope list_scope.\nLocal Open Scope nat_scope.\n"
             f"Definition cases : list case := [\n  {body}\n].\n"
-            "Eval vm_compute in mismatches cases.\nEval vm_compute in violations cases.\n")
+            "Eval vm_compute in mismatches src_cfg cases.\nEval vm_compute in violations src_cfg cases.\n")
 
 
 # ------------------------------------------------------------------------------------------ classification
@@ -484,7 +487,7 @@ def classify(c, o, explained=True):
         if c["mode"] != "product" and len(vlens) > 1 and not dask:
             return "vector_lengths_differ_raises"
         return "raises_on_valid_request"
-    if collide and c["mode"] != "product":
+    if collide and c["mode"] != "product" and not dask:
         return "dim_name_collision_silent"
     if dask and c["mode"] == "sequential" and len(en) >= 2:
         return "dask_sequential_zips"
@@ -582,7 +585,14 @@ def run(ctx: Ctx):
         "multiples of 1/8 in [0, 8); every vector-valued setting keeps its length; custom tables have 1..6 rows",
         "product/custom requests have distinct enabled keys (a repeated key is only meaningful in sequential mode)",
     ]
-    core.proof_leg(ctx, {}, PROP_FILE)
+    try:
+        gen = {"Gen_C05.v": tr.translate(ctx.repo)}
+    except core.TranslationError as ex:
+        ctx.broken.append(Broken("translation", "translator/c05.py", str(ex)))
+        ctx.log(f"translation failed (continuing with the FALLBACK model): {ex}")
+        gen = {"Gen_C05.v": tr.FALLBACK}
+    ctx.cov["src_cfg"] = gen["Gen_C05.v"].strip().splitlines()[-1]
+    core.proof_leg(ctx, gen, PROP_FILE)
     cases = gen_cases(ctx, ctx.budget(400, 1500), ctx.budget(160, 600))
     mism, viol, pairs = correspondence(ctx, cases)
     distinct = {canon(c) for c, _ in pairs if nontrivial(c)}
@@ -596,10 +606,17 @@ def run(ctx: Ctx):
         ctx.sample(dict(mode=c["mode"], params=[{k: p[k] for k in p if k != "slot"} for p in c["params"]],
                         runs=o["runs"][:4], result=o["result"][:2], raised=o["raised"]))
     unexplained = {id(c) for c, _ in mism}
+    vs = []
     for c, o in viol:
         v = to_violation(c, o, explained=id(c) not in unexplained)
         ctx.dist("spec_violation", f"{v.clause}/{c['mode']}{'/dask' if c.get('dask') else ''}")
-        ctx.violations.append(v)
+        vs.append(v)
+    # core.finish reports at most five distinct signatures: put one violation of every clause first
+    first, rest, seen = [], [], set()
+    for v in vs:
+        (rest if v.clause in seen else first).append(v)
+        seen.add(v.clause)
+    ctx.violations += first + rest
     (ctx.build / "mismatches.json").write_text(json.dumps([dict(case=c, observed=o) for c, o in mism], indent=1))
     for c, o in mism:
         ctx.broken.append(Broken("correspondence", "Model/ParamSpace.v vs implementation",
@@ -636,6 +653,15 @@ def replay(ctx: Ctx, rp: dict) -> int:
     if "crash" in obs or "driver_error" in obs:
         return 1
     core.ensure_lib(ctx, targets=["theories/Model/ParamSpace.vo"])
+    try:
+        gen = tr.translate(ctx.repo)
+    except core.TranslationError as ex:
+        print(f"translation failed ({ex}); the specification is evaluated for the FALLBACK source configuration")
+        gen = tr.FALLBACK
+    gd = ctx.build / "gen"
+    gd.mkdir(parents=True, exist_ok=True)
+    (gd / "Gen_C05.v").write_text(gen)
+    core.coqc(ctx, gd / "Gen_C05.v", [(gd, "PyxelGen")])
     ok, evals, se = core.coq_eval(ctx, "replay", emit_file([(case, obs)]))
     bad = (not ok) or core.parse_int_list(evals[1]) != []
     print("specification (evaluated in Coq):", "VIOLATED" if bad else "holds")
